@@ -67,8 +67,18 @@ def facts_dir(features="", repo=REPO):
         if r.returncode != 0:
             subprocess.run(["rm", "-rf", tmp])
             raise ExtractionFailed(r.stdout[-2000:])
+        if os.path.exists(ok):
+            # another run (with its own target directory) extracted the same tree meanwhile: keep its entry
+            subprocess.run(["rm", "-rf", tmp])
+            return d, True
         subprocess.run(["rm", "-rf", d])
-        os.rename(tmp, d)
+        try:
+            os.rename(tmp, d)
+        except OSError:
+            if os.path.exists(ok):
+                subprocess.run(["rm", "-rf", tmp])
+                return d, True
+            raise
         open(ok, "w").write("%.1f" % (time.time() - t0))
         # keep the cache small: drop entries unused for an hour beyond the 8 newest (another check
         # process may be reading a recent one)
